@@ -60,7 +60,8 @@ class TreeTensorNetworkState(TreeTensorNetwork):
             float: The norm of the state.
         """
         scal_prod = self.scalar_product()
-        assert scal_prod.imag == 0
+        # The imaginary part is zero only up to rounding errors of the
+        # contraction, so only the real part is used.
         return sqrt(scal_prod.real)
 
     def normalise(self) -> float:
